@@ -30,7 +30,10 @@ ASSUMPTIONS = [
     'the process runs as root: permission bits are compared, not enforced',
     'the racing body (destination appears mid-way) is only generated with overwrite=False, where the statement defines the outcome',
 ]
-PERMS = [None, 0o600, 0o640, 0o444, 0o000, 0o755]
+PERMS = [None, 0o600, 0o640, 0o444, 0o000, 0o755, 0o4755, 0o1644, 0o2750]      # incl. set-uid, sticky, set-gid modes
+if os.geteuid() != 0:
+    # an unprivileged process loses set-uid/set-gid bits of a file it writes to: only compare them when running as root
+    PERMS = [m if m is None else (m & 0o777) for m in PERMS]
 UMASKS = [0o000, 0o002, 0o022, 0o027, 0o077]
 ERRNOS = [errno.ENOSPC, errno.EIO, errno.EPERM, errno.EACCES, errno.EEXIST, errno.EDQUOT]
 LISTED = ('os.open', 'os.chmod', 'os.fchmod', 'f.write', 'f.flush', 'os.fsync', 'os.fdatasync', 'f.close', 'os.link', 'os.rename', 'os.replace')
